@@ -41,6 +41,9 @@ func vkEvents(thorough, dnssec bool) []vkEv {
 			evs = append(evs, q)
 		}
 	}
+	if dnssec {
+		evs = append(evs, vkExtraQs...)
+	}
 	for _, d := range []int{1, 3, 5, 10, 50} {
 		evs = append(evs, vkEv{K: "adv", D: d})
 	}
@@ -70,10 +73,14 @@ func vkSpaces(thorough, dnssec bool) []vkSpace {
 	case dnssec:
 		d = [5]int{7, 5, 5, 5, 3}
 	}
+	apex := []vkEv{q(2, false), q(4, false), q(3, false), adv(3), adv(10), wd, rp}
+	if dnssec {
+		apex = []vkEv{q(2, false), q(4, false), vkExtraQs[0], vkExtraQs[1], adv(3), adv(10), wd, rp}
+	}
 	return []vkSpace{
 		{"hot", []vkEv{q(0, false), adv(1), adv(3), adv(5), wd, rp}, d[0]},                  // one name kept hot
 		{"deeper", []vkEv{q(1, false), q(0, false), adv(3), adv(5), adv(10), wd, rp}, d[1]}, // grandchild delegation under the child's lease
-		{"apex", []vkEv{q(2, false), q(4, false), q(3, false), adv(3), adv(10), wd, rp}, d[2]},
+		{"apex", apex, d[2]}, // apex NS, a denied name, (DNSSEC: the child's DNSKEY and the grandchild's DS | else: the child's DS at the parent)
 		{"cd", []vkEv{q(0, false), q(0, true), q(4, true), adv(3), adv(5), adv(50), wd}, d[3]},
 		{"full", vkEvents(thorough, dnssec), d[4]},
 	}
